@@ -458,6 +458,23 @@ func RunC05(d *Driver) *Report {
 				if pr.Exit == 0 || pr.Stdout != "" || strings.TrimSpace(pr.Stderr) == "" {
 					r.Violation(Case{Stream: "evy-run:" + e.rule, Input: e.src, Real: fmt.Sprintf("exit=%d stdout=%q stderr=%q", pr.Exit, trunc(pr.Stdout, 100), trunc(pr.Stderr, 200)), Spec: "non-zero exit status, nothing on stdout, the errors on stderr"})
 				}
+				// the other ways `evy run` reads a program: from stdin, as a member of a txtar archive, with an SVG output file
+				if nbin%5 == 0 {
+					pr2 := runProc(20*time.Second, e.src, bin, "run", "--skip-sleep", "-")
+					ar := filepath.Join(dir, "p.txtar")
+					os.WriteFile(ar, []byte("-- ok.evy --\nprint \"ok member\"\n-- p.evy --\n"+e.src), 0o644) //nolint
+					pr3 := runProc(20*time.Second, "typed\n", bin, "run", "--skip-sleep", "--txtar", "p.evy", ar)
+					pr4 := runProc(20*time.Second, "typed\n", bin, "run", "--skip-sleep", "--svg-out", out, path)
+					for k, p := range []procResult{pr2, pr3, pr4} {
+						if p.Exit == 0 || p.Stdout != "" || strings.TrimSpace(p.Stderr) == "" {
+							r.Violation(Case{Stream: "evy-run:" + e.rule, Input: e.src, Real: fmt.Sprintf("%s: exit=%d stdout=%q stderr=%q", []string{"stdin", "txtar member", "with --svg-out"}[k], p.Exit, trunc(p.Stdout, 100), trunc(p.Stderr, 200)), Spec: "non-zero exit status, nothing on stdout, the errors on stderr"})
+						}
+					}
+					if b, err := os.ReadFile(out); err == nil && strings.Contains(string(b), "<circle") {
+						r.Violation(Case{Stream: "evy-run:" + e.rule, Input: e.src, Real: "the SVG output file contains drawn shapes", Spec: "nothing of a rejected program is drawn"})
+					}
+					os.Remove(out)
+				}
 			}
 		}
 	}
